@@ -37,6 +37,13 @@ func c05(tier string) []*explore.Scenario {
 	out = append(out, donors("C05", c01(tier))...)
 	out = append(out, donors("C05", []*explore.Scenario{c02One([]streamCase{{"Bidi", "pingpong", "echo", 1, 0, 0}, {"Bidi", "pingpong", "echo", 1, 0, 0}}, 64, 2)})...)
 	out = append(out, c05FailedWrite(2), c05FailedWrite(1))
+	// per-call envelope order through the proxy + demultiplexer topology
+	out = append(out, c16RPCFam("C05", "2streams", true, 1), c16RPCFam("C05", "unary+stream", false, 1))
+	for _, sc := range []*explore.Scenario{c16Burst(12, 1)} {
+		c := *sc
+		c.Prop = "C16" // burst oracle keys stay C16; listed here only through the rpc donors above
+		_ = c
+	}
 	n := 10000
 	if tier == "thorough" {
 		n = 100000
